@@ -6,12 +6,11 @@
    c01_post also fixes the sign of a zero result.  exact_in_limits: the exact result stays inside the
    package's +-100000 exponent limits ("subject only to the exponent limits").  [est]: the float
    estimate of NumDigits - every theorem holds for every estimate in range.
-   Not proven here (decided by the Spec-Z oracle on the implementation's results and by the
-   correspondence check only): Mul when the exact product lies below Emin (first rounding happens in
-   setExponent), Quo, Context.SetString; named ..._partial where the statement is restricted. *)
+   All eight operations of the property are covered: Round, Abs, Neg, Add, Sub, Mul, Quo and context-aware
+   parsing (the parser's acceptance set itself is C14's). *)
 From Coq Require Import ZArith Bool.
-From Apd Require Import Generated.Consts Model.Base Model.NumDigits Model.Decimal Model.Context Spec.SpecZ
-  Proofs.Core Proofs.SetExponent Proofs.RoundSpec Proofs.OpsProofs Proofs.QuoProofs Proofs.OpsProjections.
+From Apd Require Import Generated.Consts Model.Base Model.NumDigits Model.Decimal Model.Context Model.Text Spec.SpecZ
+  Proofs.Core Proofs.SetExponent Proofs.RoundSpec Proofs.OpsProofs Proofs.QuoProofs Proofs.SeRoundProofs Proofs.OpsProjections.
 Open Scope Z_scope.
 
 Theorem C01_round est : est_in_range est -> forall c (x : dec), ctx_ok c -> finite_nn x -> exact_in_limits c (exact_of_dec x) ->
@@ -34,10 +33,12 @@ Theorem C01_add_sub est : est_in_range est -> forall c (x y : dec) (sub : bool),
 Proof. exact (c01_add_sub est). Qed.
 Print Assumptions C01_add_sub.
 
-Theorem C01_mul_normal_range_partial est : est_in_range est -> forall c (x y : dec), ctx_ok c -> finite_nn x -> finite_nn y -> in_lim (exp x) -> in_lim (exp y) -> exact_in_limits c (exact_mul x y) -> (xnum (exact_mul x y) = 0 \/ emin c <= xexp (exact_mul x y) + ndigits (xnum (exact_mul x y)) - 1 <= emax c) -> emin c <= xexp (exact_mul x y) <= emax c ->
+(* Mul: for EVERY pair of finite operands - the exact product in, above or below the context's exponent
+   range (below Emin setExponent rounds once to Etiny and the round that follows finds nothing left to do) *)
+Theorem C01_mul est : est_in_range est -> forall c (x y : dec), mul_hyps c x y ->
   exists d f, ctx_mul est c x y = Ok (finish c d f) /\ c01_post c (exact_mul x y) d.
-Proof. exact (c01_mul_normal_range_partial est). Qed.
-Print Assumptions C01_mul_normal_range_partial.
+Proof. exact (c01_mul est). Qed.
+Print Assumptions C01_mul.
 
 (* the specification's integer rounding brackets the exact quotient *)
 Theorem C01_spec_rounding_brackets mode ng n k : 0 <= n -> 0 < k -> n / k <= rndZ mode ng n k <= n / k + 1.
@@ -63,6 +64,28 @@ Proof. unfold ctx_ok, finite_nn, exact_in_limits, SetExponent.in_lim. cbn. repea
 Example C01_example_run :
   let c := mkCtx 3 5 (-5) c0 RFloor in
   rdec_value (ctx_round_op go_est c (mkDec Finite true (-9) 15)) = Some (mkDec Finite true (-7) 1).
+Proof. vm_compute. reflexivity. Qed.
+
+(* context-aware parsing (Context.SetString / NewFromString): when the string parses to a finite number d
+   (set_string_raw: the parser of Model/Text.v, tied to /repo by the text stream; its acceptance set is C14's
+   business), the call returns d rounded once to the context - value (C01), flags (C02) and fit (C07) - or,
+   when a condition raised while the exponent is set is trapped, the error and no value *)
+Theorem C01_set_string est : est_in_range est -> forall c s (d : dec), set_string_raw s = Some d -> set_string_hyps c d ->
+  exists d2 f, c01_post c (exact_of_dec d) d2 /\ c02_post c (exact_of_dec d) d2 f /\ c07_post c d2 /\
+    (ctx_set_string est c s = Ok (Some (d2, f, ctx_go_error c f)) \/ ctx_set_string est c s = Ok None).
+Proof. exact (c01_c02_c07_set_string est). Qed.
+Print Assumptions C01_set_string.
+
+(* Mul below Emin, non-vacuity: 0.0012 * 0.0034 at Precision 3, Emin -5 (exact 4.08E-6, Etiny -7) *)
+Example C01_mul_example_hyps :
+  mul_hyps (mkCtx 3 5 (-5) c0 RHalfEven) (mkDec Finite false (-4) 12) (mkDec Finite true (-4) 34).
+Proof.
+  unfold mul_hyps, ctx_ok, finite_nn, exact_in_limits, clamp_ok, SetExponent.in_lim. cbn [prec emin emax form_of coeff exp exact_mul xnum xden xexp].
+  repeat split; try discriminate; try Lia.lia; vm_compute; try Lia.lia; intros; discriminate.
+Qed.
+Example C01_mul_example_run :
+  rdec_value (ctx_mul go_est (mkCtx 3 5 (-5) c0 RHalfEven) (mkDec Finite false (-4) 12) (mkDec Finite true (-4) 34))
+  = Some (mkDec Finite true (-7) 41).
 Proof. vm_compute. reflexivity. Qed.
 
 (* Quo, non-vacuity: the witness of the repaired defect F3 (a subnormal quotient whose remainder decides the
